@@ -29,7 +29,7 @@ from pymbolic.mapper import IdentityMapper
 from pytools import UniqueNameGenerator
 
 from dagrt.codegen.dag_ast import (
-    ASTIdentityMapper, Block, StatementWrapper, get_statements_in_ast)
+    ASTIdentityMapper, Block, IfThen, StatementWrapper, get_statements_in_ast)
 
 
 __doc__ = """
@@ -60,8 +60,18 @@ class ASTStatementRewriter(ASTIdentityMapper):
         self.var_name_gen = var_name_gen
 
     def map_StatementWrapper(self, expr):
+        def wrap(stmt):
+            # A rewriter may guard the statements it introduces. The code
+            # generators take guards from the AST, not from the statement.
+            if stmt.condition is not True:
+                return IfThen(
+                        stmt.condition,
+                        StatementWrapper(stmt.copy(condition=True)))
+            else:
+                return StatementWrapper(stmt)
+
         new_statements = [
-                StatementWrapper(stmt)
+                wrap(stmt)
                 for stmt in self.map_statement(expr.statement)]
 
         if len(new_statements) > 1:
